@@ -5,7 +5,7 @@ package props
 import "bbcheck/internal/an"
 
 const cleanupMutex = "local((*Buffer).cleanup).sync.Mutex#0"
-const callOnce = "local((*Exclusive).call$1).sync.Once#0"
+const callOnce = "local((*Exclusive).call$go1).sync.Once#0"
 
 // E1Tables is the slot filling of the lock-state simulator (DESIGN.md section 3, rules G/P/O/B/HO/S/SL/WL).
 func E1Tables() *an.Tables {
@@ -72,17 +72,17 @@ func E1Tables() *an.Tables {
 		GExempt: []an.Exception{
 			{Rule: "G", Func: "(*Worker).do", Subject: "Worker.stop", Kind: "read", Why: "written before the go statement that starts do; reset only after <-x.done, which follows close(x.done) in do"},
 			{Rule: "G", Func: "(*Worker).do", Subject: "Worker.done", Kind: "read", Why: "same hand-over as Worker.stop"},
-			{Rule: "G", Func: "(*Exclusive).call$1", Subject: "exclusiveItem.work", Kind: "read", Why: "the item was replaced in the map under both locks before the unlock; writers require e.work[key] == item under both locks"},
+			{Rule: "G", Func: "(*Exclusive).call$go1", Subject: "exclusiveItem.work", Kind: "read", Why: "the item was replaced in the map under both locks before the unlock; writers require e.work[key] == item under both locks"},
 			{Rule: "G", Func: "(*Buffer).ensure", Subject: "Buffer.consumers", Kind: "read", Why: "documented double-checked init of the map header: the first call precedes sharing and the header is never rewritten"},
 		},
 		CellExempt: []an.Exception{
-			{Rule: "CELL", Func: "(*Buffer).cleanup$1$1", Subject: "*time.Timer", Kind: "read", Why: "timer is written before the go statement that starts this goroutine; the next write happens only after this goroutine's own deferred reset"},
+			{Rule: "CELL", Func: "(*Buffer).cleanup$fn1$go1", Subject: "*time.Timer", Kind: "read", Why: "timer is written before the go statement that starts this goroutine; the next write happens only after this goroutine's own deferred reset"},
 		},
 		Block: []an.BlockRow{
 			{Func: "(*consumer).Get", Op: "recv", Held: []string{"consumer.mutex"}, Why: "Get serialises readers of one consumer; C12's proviso names a blocked Get"},
-			{Func: "(*Buffer).Close$1", Op: "condwait", Held: []string{"Buffer.close"}, Why: "a second Close must not overtake the first; it waits for consumers to deregister",
+			{Func: "(*Buffer).Close$Do1", Op: "condwait", Held: []string{"Buffer.close"}, Why: "a second Close must not overtake the first; it waits for consumers to deregister",
 				Alt: [][]string{{"Buffer.close", "consumer.close"}, {"Buffer.close", "Channel.close"}}},
-			{Func: "(*consumer).Close$1", Op: "condwait", Held: []string{"consumer.close"}, Why: "Close waits until uncommitted reads are resolved (documented)"},
+			{Func: "(*consumer).Close$Do1", Op: "condwait", Held: []string{"consumer.close"}, Why: "Close waits until uncommitted reads are resolved (documented)"},
 			{Func: "(*ChanCaster).Send", Op: "send", Held: []string{"ChanCaster.mutex"}, Why: "prevents receivers being added while sending (field comment)",
 				Alt: [][]string{{"ChanCaster.mutex", "ChanPubSub.sendMu", "ChanPubSub.sendingMu"}}},
 			{Func: "(*ChanPubSub).Send", Op: "condwait", Held: []string{"ChanPubSub.sendMu"}, Why: "sendMu exists for the sanity of the ping-pong pattern (field comment)"},
@@ -90,11 +90,11 @@ func E1Tables() *an.Tables {
 			{Func: "(*Notifier).PublishContext", Op: "reflect.Select", Held: []string{"Notifier.mutex"}, Why: "publish holds the read lock for its whole duration (documented on Unsubscribe)"},
 			{Func: "(*Buffer).cleanupLogic", Op: "callback", Held: []string{"Buffer.mutex", cleanupMutex}, Why: "the cleaner sees a consistent size/offset snapshot"},
 			{Func: "WaitCond", Op: "callback", Held: []string{"param(cond).L"}, Why: "fn is documented to be called with the locker held"},
-			{Func: "(*Exclusive).call$1", Op: "send", Held: []string{"exclusiveItem.mutex"}, Why: "outcome has capacity 1 and receives exactly one send per call (C10.4 checks the exclusion)"},
-			{Func: "(*Exclusive).call$1$1$1", Op: "send", Held: []string{callOnce}, Why: "outcome has capacity 1 and receives exactly one send per call (C10.4 checks the exclusion)"},
+			{Func: "(*Exclusive).call$go1", Op: "send", Held: []string{"exclusiveItem.mutex"}, Why: "outcome has capacity 1 and receives exactly one send per call (C10.4 checks the exclusion)"},
+			{Func: "(*Exclusive).call$go1$arg1$Do1", Op: "send", Held: []string{callOnce}, Why: "outcome has capacity 1 and receives exactly one send per call (C10.4 checks the exclusion)"},
 		},
 		HandOffs: []an.HandOff{
-			{Spawner: "(*Exclusive).call", Goroutine: "(*Exclusive).call$1", Class: "exclusiveItem.mutex"},
+			{Spawner: "(*Exclusive).call", Goroutine: "(*Exclusive).call$go1", Class: "exclusiveItem.mutex"},
 		},
 		InitFuncs: map[string][]string{
 			// prefixes: any init closure nested in ensure (each runs under the write lock behind a nil re-check)
@@ -123,8 +123,8 @@ func E1Tables() *an.Tables {
 			{ID: "cooldown clear->re-broadcast decision", Func: "(*Buffer).cleanup$*", From: "write:cell(*time.Timer)", To: "read:cell(bool)", Lock: cleanupMutex, Why: "a change seen between reading the flag and clearing the timer would set the flag again and never be re-broadcast"},
 			// Channel (C13)
 			{ID: "Channel.rollback read-modify-write", From: "read:Channel.rollback", To: "write:Channel.rollback", Lock: "Channel.mutex", Why: "replay counter updated in the hold in which it was read"},
-			{ID: "Channel.Get closed-check->take", Func: "(*Channel).Get$1", From: "read:Channel.ctx", To: "write:Channel.buffer", Lock: "Channel.mutex", Why: "nothing is taken from the source once closed"},
-			{ID: "Channel.Get closed-check->replay", Func: "(*Channel).Get$1", From: "read:Channel.ctx", To: "write:Channel.rollback", Lock: "Channel.mutex", Why: "state is not modified once closed"},
+			{ID: "Channel.Get closed-check->take", Func: "(*Channel).Get$call1", From: "read:Channel.ctx", To: "write:Channel.buffer", Lock: "Channel.mutex", Why: "nothing is taken from the source once closed"},
+			{ID: "Channel.Get closed-check->replay", Func: "(*Channel).Get$call1", From: "read:Channel.ctx", To: "write:Channel.rollback", Lock: "Channel.mutex", Why: "state is not modified once closed"},
 			{ID: "Channel.Commit closed-check->drop", Func: "(*Channel).Commit", From: "read:Channel.ctx", To: "write:Channel.buffer", Lock: "Channel.mutex", Why: "Commit fails after close without changing state"},
 			{ID: "Channel.Commit pending->drop", Func: "(*Channel).Commit", From: "read:Channel.rollback", To: "write:Channel.buffer", Lock: "Channel.mutex", Why: "exactly the delivered entries are dropped"},
 			// Workers (C14)
@@ -143,7 +143,7 @@ func E1Tables() *an.Tables {
 			{ID: "Exclusive validate->count", Func: "(*Exclusive).call", From: "read:Exclusive.work[]", To: "write:exclusiveItem.count", Lock: "Exclusive.mutex", Why: "a call attaches only to the item currently in the map"},
 			{ID: "Exclusive validate->work", Func: "(*Exclusive).call", From: "read:Exclusive.work[]", To: "write:exclusiveItem.work", Lock: "Exclusive.mutex", Why: "same"},
 			{ID: "Exclusive validate->wait", Func: "(*Exclusive).call", From: "read:Exclusive.work[]", To: "write:exclusiveItem.wait", Lock: "Exclusive.mutex", Why: "same"},
-			{ID: "Exclusive successor count->delete", Func: "(*Exclusive).call$1", From: "read:exclusiveItem.count", To: "delete:Exclusive.work", Lock: "exclusiveItem.mutex", Why: "the key is deleted in the hold in which the successor was seen unused"},
+			{ID: "Exclusive successor count->delete", Func: "(*Exclusive).call$go1", From: "read:exclusiveItem.count", To: "delete:Exclusive.work", Lock: "exclusiveItem.mutex", Why: "the key is deleted in the hold in which the successor was seen unused"},
 			// ChanPubSub (C06)
 			{ID: "Send count->arm", Func: "(*ChanPubSub).Send", From: "call:(*sync/atomic.Int32).Load", To: "call:(*ChanCaster).Add", Lock: "ChanPubSub.sendingMu", Why: "no subscription between counting and arming"},
 			{ID: "Send arm->deliver", Func: "(*ChanPubSub).Send", From: "call:(*ChanCaster).Add", To: "call:(*ChanCaster).Send", Lock: "ChanPubSub.sendingMu", Why: "no subscription between arming and delivery"},
@@ -152,8 +152,8 @@ func E1Tables() *an.Tables {
 		},
 		Requires: []an.Require{
 			{ID: "Worker holder registered under mu", Func: "(*Worker).Do", Event: "call:(*sync.WaitGroup).Add", Lock: "Worker.mu", Write: true, Why: "registration is atomic with the watcher's take-and-clear of the wait group"},
-			{ID: "Exclusive map update under item mutex", Func: "(*Exclusive).call$1", Event: "write:Exclusive.work[]", Lock: "exclusiveItem.mutex", Write: true, Why: "successor installed / key deleted while the key's item mutex is held"},
-			{ID: "Channel.Close cancels inside the hold", Func: "(*Channel).Close$1", Event: "call:field:Channel.cancel", Lock: "Channel.mutex", Write: true, Why: "a Get that holds the mutex sees the cancelled context before taking from the source"},
+			{ID: "Exclusive map update under item mutex", Func: "(*Exclusive).call$go1", Event: "write:Exclusive.work[]", Lock: "exclusiveItem.mutex", Write: true, Why: "successor installed / key deleted while the key's item mutex is held"},
+			{ID: "Channel.Close cancels inside the hold", Func: "(*Channel).Close$Do1", Event: "call:field:Channel.cancel", Lock: "Channel.mutex", Write: true, Why: "a Get that holds the mutex sees the cancelled context before taking from the source"},
 			{ID: "ChanPubSub.Send delivers under sendingMu", Func: "(*ChanPubSub).Send", Event: "call:(*ChanCaster).Send", Lock: "ChanPubSub.sendingMu", Write: true, Why: "no subscription during delivery"},
 			{ID: "ChanPubSub.Send delivers under sendMu", Func: "(*ChanPubSub).Send", Event: "call:(*ChanCaster).Send", Lock: "ChanPubSub.sendMu", Write: true, Why: "sends are serialised"},
 			{ID: "ChanPubSub positive Add under sendingMu", Func: "(*ChanPubSub).Add", Event: "call:(*ChanPubSub).addSubscribers", Lock: "ChanPubSub.sendingMu", Param: "delta", SignMask: 4, Why: "subscribing is excluded while a Send counts and delivers"},
